@@ -6,6 +6,7 @@ the executable models and prints one output line per op line.
 import Vipnode.Drv.Store
 import Vipnode.Drv.Pool
 import Vipnode.Drv.Server
+import Vipnode.Drv.Codec
 open Vipnode Vipnode.Drv
 
 structure DState where
@@ -23,6 +24,7 @@ def stepLine (st : DState) (line : String) : DState × String :=
   | "store" :: args => let (s, o) := storeStep st.store args; ({ st with store := s }, o)
   | "pool" :: args => let (s, o) := poolStep st.pool args; ({ st with pool := s }, o)
   | "srv" :: args => let (s, o) := srvStep st.srv args; ({ st with srv := s }, o)
+  | "codec" :: args => (st, codecStep args)
   | ["noop"] => (st, "noop")
   | [] => (st, "")
   | _ => (st, "bad-op")
